@@ -5,8 +5,8 @@ import json, os, sys
 HERE = os.path.dirname(os.path.dirname(os.path.abspath(__file__)))
 sys.path.insert(0, HERE)
 
-NOTE = ("Trusted base: Lean 4.33 kernel (axioms propext, Classical.choice, Quot.sound only; audited on every run, no "
-        "native_decide/bv_decide/sorry); AL.Spec as the formal reading of the property; gen/dump_tables.c (tables and constants "
+NOTE = ("Trusted base: Lean 4.33 kernel (axioms propext, Classical.choice, Quot.sound only; audited on every run; no "
+        "bv_decide/sorry/own axioms; native_decide ONLY in AL/Properties/Sweep/C0x.lean, the declared exception for the finite sweeps of C01-C05); AL.Spec as the formal reading of the property; gen/dump_tables.c (tables and constants "
         "regenerated from /repo/src on every run); the hand-written AL.Impl model of the C control flow, tied to the code by "
         "differential execution (exhaustive on finite domains, boundary+seeded sampling otherwise); gcc, sanitizers, harness/*.c, "
         "alv.py. ")
@@ -19,8 +19,10 @@ CLAIMS = {
         "(8/16/32/64 bit, r8-r15, ah/ch/dh/bh without REX), every synonym mnemonic and the no-operand instructions. Theorems: Sweep.c01_sweep (the "
         "whole family, about 51000 instances x option bytes {14,0}, on the model, decided by evaluation - native_decide), C01.nop_table_decodes "
         "(kernel-checked: every entry n of the regenerated NOP table is one nop of n bytes), C01.no_operand_lines (kernel evaluation of the text-level "
-        "pipeline). Tie: the same family on the C implementation under option bytes {14,0} (thorough: all 12): implementation bytes = model bytes "
-        "(T2) and decode(bytes) = written instruction, length = offset advance.",
+        "pipeline), C01.letter_case_irrelevant (kernel-checked, EVERY line and option byte: the case of its letters does not change the result). Tie: "
+        "the same family on the C implementation under option bytes {14,0} (thorough: all 12): implementation bytes = model bytes "
+        "(T2) and decode(bytes) = written instruction, length = offset advance; upper/mixed-case spellings give the same bytes; each line assembled "
+        "a second time after NOP padding (chunk fitting re-assembles the record) gives the same instruction.",
    note="The finite register-tuple quantifier is discharged by evaluation, not by a kernel-checked term: c01_sweep depends on the per-theorem "
         "native_decide axiom (Lean compiler/interpreter trusted) - kernel evaluation of the text-level model was measured at about 55 ms per line. "
         "Equivalences accepted as 'the same operation': xchg is symmetric; xchg ax,ax / rax,rax may be the nop they are (not xchg eax,eax).",
@@ -31,10 +33,13 @@ CLAIMS = {
         "per-register coefficient and sign-extended displacement for every register valuation) for every entry of the reference table with a "
         "memory-capable operand over base (none, all 16, 32-bit) x index x scale x displacement (disp8/disp32 boundaries of both signs) x address size, "
         "both factor orders, with and without size keyword. Theorems: Sweep.c02_sweep (about 108000 instances x NASM/STRICT SIB handling on the model, "
-        "by evaluation), C02.disp_field_reads_back + X86.leVal_assembleConst + toSigned_roundtrip (kernel-checked, for EVERY displacement value: the "
+        "by evaluation; Sweep.c02_sweep_mixed: the two mixed settings of the SIB options on every instance without base or with a stack-pointer index), "
+        "C02.decoder_reads_every_operand (kernel-checked, for EVERY well-formed memory operand - any base, index, scale, displacement, address size - "
+        "the canonical ModRM/SIB/displacement encoding is read back by the reference decoder as that operand), C02.disp_field_reads_back + X86.leVal_assembleConst + toSigned_roundtrip (kernel-checked, for EVERY displacement value: the "
         "bytes the model emits read back as the value and every signed disp8/disp32 is recovered), C11.swap_same_address / nobase_scale*_same_address "
         "(the NASM rewritings keep the address for every register valuation). Tie: the family on the C implementation (thorough: all 17x16x4x13x2 "
-        "shapes for mov, lea, paddb, vaddpd), decoded and compared; objdump cross-check of the decoder on every encoding.",
+        "shapes for mov, lea, paddb, vaddpd) incl. [base+rsp], [1*rsp+disp] shapes, option bytes NASM/STRICT and both mixed SIB settings, decoded and "
+        "compared; objdump cross-check of the decoder on every encoding.",
    note="Sweep by evaluation (native_decide axiom), see C01. RIP-relative operands are not in the documented syntax and not in the family.",
    technique="Lean 4 reference decoder with address-equivalence relation; finite-domain theorem (native_decide) + kernel-checked field lemmas for all values; differential run with decoding oracle",
    design="8/C02"),
@@ -44,7 +49,8 @@ CLAIMS = {
         "value after the architecture's sign/zero extension is the written value. Theorems: Sweep.c03_sweep (quick family x the three mov-immediate "
         "modes, model, by evaluation), C03.written_number_value with Lemmas.strtoul_dec / strtoul_hex / strtoul_neg_* (kernel-checked, for EVERY "
         "n < 2^64: decimal, hexadecimal with any number of leading zeros and negated spellings all convert to n resp. 2^64-n with nothing left over - "
-        "also the number-base part of C16), C03.imm_field_reads_back (every emitted constant reads back little-endian). Tie: the family on the C "
+        "also the number-base part of C16), C03.written_number_value_padded (decimal numerals with any number of leading zeros stay decimal), "
+        "C03.imm_field_reads_back / imm_field_dword / imm_field_qword (every emitted constant and the padded immediate field read back little-endian). Tie: the family on the C "
         "implementation in modes STRICT/NASM/SMART, decoded and compared; asmline -r executes mov rax, v; ret for boundary v in every mode (C20).",
    note="Sweep by evaluation (native_decide axiom). 'Representable' is read as encodable: for 64-bit non-mov destinations values outside the sign-"
         "extended imm32 range are not in the family. mov r64, imm <= 0xffffffff may be emitted to the 32-bit register (C11 says in which mode).",
@@ -65,7 +71,7 @@ CLAIMS = {
         "rel32; long forces rel32, short rel8) and a line is rejected exactly when short is requested, or only rel8 exists, and d is outside "
         "-128..127. Theorems: Sweep.c05_sweep (about 47000 instances x 2 option bytes, model, by evaluation), C05.rel_field_reads_back (kernel-"
         "checked, EVERY d: a rel8/rel32 field holding d's two's complement reads back as d), C05.written_displacement (EVERY n: the written number "
-        "reaches the encoder unchanged). Register, memory and far-memory targets are instances of the C01/C02 families (call, jmp, callf, jmpf).",
+        "reaches the encoder unchanged, also with leading zeros). Register, memory and far-memory targets are instances of the C01/C02 families (call, jmp, callf, jmpf).",
    note="Sweep by evaluation (native_decide axiom). 'short' on call/xbegin (no rel8 form exists) is not judged.",
    technique="Lean 4 reference decoder; finite-domain theorem (native_decide) + two's-complement lemmas for all displacements; differential run with decoding oracle",
    design="8/C05"),
@@ -89,7 +95,9 @@ CLAIMS = {
         "snapshot_is_final, lookup_alone / format_lookup_alone (the table lookups return what they return single-threaded) - for every trace and "
         "any number of threads. Tie: T5 (nm: the writable globals of the library objects are the audited ones, only the index tables are stored "
         "to, they are _Atomic, no libc function with hidden static state is called); 2..64 threads looping create/options/assemble (plain, fitting, "
-        "counting)/destroy on private instances under ThreadSanitizer and at -O2, every thread's results equal the single-threaded reference.",
+        "counting)/destroy on private instances under ThreadSanitizer and at -O2, every thread's results equal the single-threaded reference; "
+        "deterministic schedules: a thread held after each of the 21 index table stores of the process's first create (guarded hook), and a thread "
+        "held right after each of its mmap/mremap/munmap calls (link-time wrappers) while another creates buffers it keeps using afterwards.",
    note="PARTIAL: the C11 memory model and libc's internal locking are assumed; absence of races on non-atomic objects is observed by TSan over "
         "the schedules that occurred, not proved.",
    technique="Lean 4 interleaving model with invariant proof by induction over traces + ThreadSanitizer harness + nm/source inventory of shared state",
@@ -121,8 +129,9 @@ CLAIMS = {
         "size, no third round of the fitting loop), the termination/fuel lemma items_eq_itemsL, and the bound of every fixed array the "
         "parser copies text into: filtered_length (filter_str[100]), instruction_length ([15]), regstr_length / indexreg_length ([6]), "
         "opdtype_length ([5]), nop_index, letter_index, table_slots_bound. T4: a clang-AST inventory of every subscript / dereference / "
-        "libc string call in the parser and encoder must equal the audited list (169 sites, each function mapped to its lemma). T2/T3: "
-        "120k (thorough 1.5M) malformed, garbage and boundary-length lines and API histories with guard regions under ASan+UBSan.",
+        "libc string call in the parser and encoder must equal the audited list (171 sites, each function mapped to its lemma). T2/T3: "
+        "120k (thorough 1.5M) malformed, garbage and boundary-length lines (every ending of 1..3 scanner-relevant characters at exactly 96..101 "
+        "significant characters) and API histories with guard regions under ASan+UBSan.",
    note="PARTIAL by nature: uninitialised reads, signed-shift and other UB classes the model cannot express, libc internals and the "
         "42-byte bound of the code[64] scratch array are observed by sanitizers (valgrind in the thorough tier), not proved; the site "
         "inventory is textual (macro bodies appear by macro name).",
@@ -134,9 +143,9 @@ CLAIMS = {
         "(every byte >0x7e anywhere before a comment), reject_unknown_mnemonic (every name not in the table, any operands), "
         "C10Table.reject_bad_format + supported_forms_found (kernel evaluation on the regenerated table against the FROZEN list "
         "AL.Spec.supported: for all 201 mnemonics x all 781 operand-kind strings the lookup succeeds exactly on the frozen forms), "
-        "reject_unknown_register / strToReg_unknown, reject_empty_operand, reject_unclosed_bracket, reject_bad_scale, "
-        "reject_stack_pointer_index. Tie + oracle: generated malformed families (412 misspelt mnemonics, 128 register lines, 46k "
-        "mnemonic x kind tuples, operand/memory syntax, bytes 0x7f..0xff at every position) alone under option bytes and "
+        "reject_unknown_register / strToReg_unknown, reject_empty_operand, reject_unclosed_bracket, reject_bad_scale, reject_glued_scale "
+        "(a scale is ONE digit standing alone: products, multi-digit and hexadecimal numbers never pass), reject_stack_pointer_index. Tie + oracle: generated malformed families (412 misspelt mnemonics, 128 register lines, 46k "
+        "mnemonic x kind tuples, operand/memory syntax, 600 invalid-scale spellings, bytes 0x7f..0xff at every position) alone under option bytes and "
         "first/middle/last in programs in plain/fitting/counting mode.",
    note="'Operand kinds' are the library's own classes (r covers general and MMX registers): a general register where an MMX register "
         "is required is not distinguished at this level (it is an encoding question, C04). The per-family lemmas are about AL.Impl "
@@ -156,7 +165,8 @@ CLAIMS = {
         "classification on constructed families, (c) mov r64, imm over 27 values x up to 10 spellings x 16 registers equals the "
         "documented narrowed/kept bytes per mode, (d) [base+rsp/esp(+disp)] and [scale*index(+disp)] under 20 instruction templates "
         "depend only on their bit, equal the literal encoding of the documented rewriting with the bit, have literal SIB fields without "
-        "it, and the lea address EXECUTED on the CPU equals the written one.",
+        "it, and the lea address EXECUTED on the CPU equals the written one, (e) after EVERY sequence of three setter calls (single and "
+        "umbrella setters) probe lines assemble as under the combination the documentation assigns to that history.",
    note="The address-equality theorems are about the operand record (base, index, scale); that ModRM/SIB/displacement bytes denote that "
         "record is checked by the executed-lea oracle and the literal-field decoder, not proved (it is the C02 decoder's subject). The "
         "immediate width behind a memory destination is excluded from the whole-instruction rewrite comparison (a C02 matter).",
@@ -168,10 +178,11 @@ CLAIMS = {
         "function cannot see the case of any letter (mnemonic, registers, keywords, hex digits), anything from ';' or '%' on, leading "
         "blanks/tabs, or blanks/tabs anywhere behind the mnemonic's separator; label/section/global/blank lines contribute nothing "
         "wherever they are inserted, hence LF = CRLF. Number-base independence (decimal/hex/leading zeros) is exercised by the oracle "
-        "and proved where numerals are interpreted (C03/C02 numeral lemmas, when present). Tie + oracle: every accepted corpus line x 8 "
-        "(thorough 64) seeded rewritings vs its canonical form on the implementation, programs with inserted skipped lines and CR/LF/CRLF.",
+        "and proved where immediates are interpreted (C03.written_number_value, written_number_value_padded). Tie + oracle: every accepted corpus line x 8 "
+        "(thorough 64) seeded rewritings vs its canonical form on the implementation, programs with inserted skipped lines and CR/LF/CRLF in a roomy buffer "
+        "and in a caller buffer the plain program only just fits.",
    note="The filter lemmas are about AL.Impl.Filter (transliteration of filter_assembly_str_fsa, tied by T2). The numeral part is "
-        "currently covered by differential/oracle execution, not yet by a theorem.",
+        "C03.written_number_value / written_number_value_padded (immediates) and the oracle (displacements).",
    technique="Lean 4 proofs by induction over the input text (filter automaton) + metamorphic oracle and differential correspondence",
    design="8/C16"),
  "C06": dict(
@@ -180,7 +191,8 @@ CLAIMS = {
         "state-less per-line function; a successful plain call leaves, from the old offset, exactly their concatenation, advances the "
         "offset by its length and touches nothing before it (the right-hand side mentions neither prior buffer contents nor earlier "
         "calls); feeding t1 then t2 equals feeding t1++eol++t2. Tie + oracle: all 11449 ordered pairs of 107 representative lines and "
-        "random programs, one call vs two calls at several offsets/fills, compared with the implementation's own per-line results.",
+        "random programs, one call vs two calls at several offsets/fills, compared with the implementation's own per-line results; long programs on the "
+        "library-managed buffer in one call, one call per line and split next to every growth point.",
    note="Unbounded induction over lines; line-locality of the C filter/str_to_instr is proved on the model (assembleLine_local) and tied "
         "by differential execution. Positions below 2^31-60.",
    technique="Lean 4 proof by induction over lines/codes (layout theorem) + differential correspondence and concatenation oracle",
@@ -191,7 +203,8 @@ CLAIMS = {
         "room), every call keeps all bytes before its start offset through any number of growths, and a successful call leaves the same "
         "code at the same place and the same offset as on a caller buffer (the layout of C06/C13). Tie + oracle: internal instance vs "
         "40000-byte caller buffer at offsets -21..+21 around each growth point in plain/fitting(7,9,13,16)/counting mode and genuinely "
-        "long programs; every growth is forced to MOVE the mapping; code behind the growth point is executed.",
+        "long programs; every growth is forced to MOVE the mapping; code behind the growth point is executed; fresh allocations are filled with "
+        "ones (malloc returns indeterminate bytes).",
    note="mremap is modelled as 'same prefix, 6000 more zero bytes' (assumed OS behaviour); executability after growth is observed by "
         "running code, not proved.",
    technique="Lean 4 simulation/layout proof + differential correspondence with forced mremap relocation",
@@ -204,8 +217,8 @@ CLAIMS = {
         "cross the next boundary; every instruction shorter than c lies inside one chunk; deleting the pads gives the plain code; the "
         "do-while loop needs at most two rounds; c<2 disables fitting. Tie + oracle: all c in 2..24 x every position mod c x every "
         "instruction length 1..14 the library emits, random programs, fitting toggled between calls.",
-   note="That each NOP-table entry decodes to exactly one x86 NOP is checked against the decoder specification when AL.Spec.X86 is "
-        "present; until then the entries are compared with the Intel-recommended multi-byte NOP sequences in the check.",
+   note="That each NOP-table entry decodes to exactly one x86 NOP is the kernel-checked theorem C01.nop_table_decodes (reference decoder "
+        "AL.Spec.X86); the check also compares the entries with the Intel-recommended multi-byte NOP sequences.",
    technique="Lean 4 proof (modular arithmetic + layout induction) + differential correspondence and layout oracle",
    design="8/C13"),
  "C14": dict(
@@ -213,7 +226,8 @@ CLAIMS = {
         "fitting, for EVERY text, start offset and chunk size 2<=c<2^31 the counting call leaves the instance exactly as asm_assemble_str "
         "does (bytes, offset, options, mode and chunk setting restored), returns the same value and stores the number of this call's "
         "instructions with floor(p/c) != floor((p+len-1)/c); for c<2 it is a plain assembly reporting 0. Tie + oracle: chunk sizes "
-        "-1,0,1,2..33,2^31-1 x exact-fit offsets x programs, each counted twice in a row and followed by a plain call.",
+        "-1,0,1,2..33,2^31-1 x exact-fit offsets x programs (also instruction-free ones), each counted twice in a row and followed by a plain call, "
+        "on fresh instances and on instances whose chunk fitting was switched on and off again before.",
    note="Unbounded; positions below 2^32.",
    technique="Lean 4 proof (floor-division lemma, induction over codes) + differential correspondence and count oracle",
    design="8/C14"),
@@ -236,7 +250,8 @@ CLAIMS = {
         "leaves the bytes before its starting offset unchanged; with fewer than 20 bytes left the next instruction is not stored. Proved "
         "for every per-line function (no fact about the encoder is used; only the length test of assemble_within_reserve). Tie: the "
         "parser/API model is run with the implementation's own per-line results against the real library on caller buffers between "
-        "guard regions under ASan (every length 0..44 x programs x offsets x modes, then random histories).",
+        "guard regions under ASan (every length 0..44 x programs x offsets x modes; a prefix assembled by the same call leaving 18..24 bytes "
+        "in buffers of 64..200 bytes; then random histories).",
    note="Induction over the history is unbounded; the tie between AL.Impl.Parser/Api and parser.c/assemblyline.c is differential "
         "(sampled histories). Positions are assumed below 2^31-60 (int arithmetic of the C code).",
    technique="Lean 4 invariant proof by induction over call histories + differential correspondence with guard regions",
